@@ -71,6 +71,57 @@ def atlasUnit (p : Plan) (c : Change) : Bytes :=
 def formatAtlas (p : Plan) : Option Bytes :=
   (directivesText p).map (fun h => h ++ p.changes.flatMap (atlasUnit p))
 
+/-! ### checkpoint files: `LocalFile.AddDirective` on a formatted file -/
+
+def isCommentStart : Bytes → Bool
+  | 0x23 :: _ => true
+  | 0x2d :: 0x2d :: _ => true
+  | _ => false
+
+/-- the content after the first line break, `none` without one. -/
+def dropLine? (f : Bytes) : Option Bytes :=
+  let first := f.takeWhile (· != 0x0a)
+  if first.length < f.length then some (f.drop (first.length + 1)) else none
+
+/-- the loop of `LocalFile.comments()`: leading `#` / `--` lines are collected; they count as file
+comments only when a blank line (or the end of the file) follows them. `n` = lines collected so far. -/
+def fileComments : Nat → Bytes → Nat → Bool
+  | 0, _, _ => false
+  | fuel + 1, content, n =>
+    if isCommentStart content then
+      match dropLine? content with
+      | none => true            -- comments-only file
+      | some rest => fileComments fuel rest (n + 1)
+    else
+      let t := content.dropWhile (fun b => b == 0x20 || b == 0x09)
+      if !(t.head? == some 0x0a) && !content.isEmpty then false else decide (n > 0)
+
+/-- `len(f.comments()) != 0`. -/
+def startsWithComment (f : Bytes) : Bool := fileComments (f.length + 1) f 0
+
+def delimiterName : Bytes := Bytes.ascii ['d', 'e', 'l', 'i', 'm', 'i', 't', 'e', 'r']
+def checkpointName : Bytes := Bytes.ascii ['c', 'h', 'e', 'c', 'k', 'p', 'o', 'i', 'n', 't']
+
+/-- does the file start with the `-- atlas:delimiter` directive (`directive(content, "delimiter", "-- ")`)? -/
+def hasDelimHeader (f : Bytes) : Bool :=
+  match Hash.directive f with
+  | some (pre, name, _) => name == delimiterName && pre == [0x2d, 0x2d, 0x20]
+  | none => false
+
+/-- `LocalFile.AddDirective(name)` without arguments. `fixed = false` is the pinned commit (the new
+directive is always put in front, also in front of a delimiter directive, which the scanner then no
+longer sees); the repaired tree keeps the delimiter directive on the first line. -/
+def addDirective (fixed : Bool) (name : Bytes) (f : Bytes) : Bytes :=
+  let line := [0x2d, 0x2d, 0x20] ++ Hash.atlasTag ++ name ++ [0x0a] ++ (if startsWithComment f then [] else [0x0a])
+  let first := f.takeWhile (· != 0x0a)
+  if fixed && hasDelimHeader f && name != delimiterName && first.length < f.length then
+    first ++ [0x0a] ++ line ++ f.drop (first.length + 1)
+  else line ++ f
+
+/-- the checkpoint file `Planner.WriteCheckpoint` writes for a plan (no tag). -/
+def formatCheckpoint (fixed : Bool) (p : Plan) : Option Bytes :=
+  (formatAtlas p).map (addDirective fixed checkpointName)
+
 /-- `{{ with .Comment }}-- {{ println . }}{{ end }}{{ printf "%s;\n" .Cmd }}` -/
 def upUnit (c : Change) : Bytes :=
   (if c.comment.isEmpty then [] else [0x2d, 0x2d, 0x20] ++ c.comment ++ [0x0a]) ++ c.cmd ++ [0x3b, 0x0a]
